@@ -558,3 +558,74 @@ def rule_shift_lossless(chk, A):
                           "offset that is not a multiple of the real scale is silently rounded" % (c["name"], c["E"][:50], c["S"][:50]),
                    key="shiftlossless|%s|%s" % (c["name"], c["S"][:40]))
     chk.floor(R + ":packs", n, 6)
+
+
+TYPE_READS = {"reg_type", "signature", "is_gp", "is_gp32", "is_gp64", "is_vec", "is_vec8", "is_vec16", "is_vec32", "is_vec64", "is_vec128", "is_reg",
+              "reg_group", "is_vec_b16", "is_vec_d1", "is_vec_d2", "is_vec_s4", "has_element_type", "element_type", "is_gp_w", "is_gp_x"}
+
+
+def rule_reg_type_seen(chk, A):
+    """no register id is packed for an operand whose register type nobody looked at"""
+    from .must import Must
+    R = "R-REG-TYPE-LOOKED-AT"
+    chk.rule(R, "a64 _emit: `opcode.add_reg(oK, pos)` is reached only on paths on which some expression read oK's register type (reg_type / "
+                "signature / is_gp* / is_vec* / element_type, directly or inside a unit helper that was handed oK): the register field holds "
+                "only `id & 31`, so an operand whose type was never looked at is encoded as whatever register class the instruction implies")
+    emit, helpers = A["emit"], A["helpers"]
+    memo = {}
+
+    def reads_type_params(g, seen=()):
+        if (g.name, len(g.params)) in memo:
+            return memo[(g.name, len(g.params))]
+        out = set()
+        pd = {p["did"]: k for k, p in enumerate(g.params)}
+        for i, x in g.ex.items():
+            if x["k"] == "mcall" and x.get("cn") in TYPE_READS and x.get("obj"):
+                r = g.root_ref(x["obj"])
+                rx = g.e(r) if r is not None else None
+                if rx is not None and rx.get("did") in pd:
+                    out.add(pd[rx["did"]])
+            if x["k"] == "call" and x.get("callee") and x.get("args"):
+                for h in helpers.values():
+                    if h.name == x["callee"] and len(h.params) == len(x["args"]) and h is not g and h.name not in seen:
+                        for j in reads_type_params(h, seen + (g.name,)):
+                            r = g.root_ref(x["args"][j])
+                            rx = g.e(r) if r is not None else None
+                            if rx is not None and rx.get("did") in pd:
+                                out.add(pd[rx["did"]])
+        if not seen:
+            memo[(g.name, len(g.params))] = out
+        return out
+    summ = {}
+    for h in helpers.values():
+        summ.setdefault((h.name, len(h.params)), set()).update(reads_type_params(h))
+    ops = {p["did"]: p["name"] for p in emit.params if re.match(r"o\d$", p["name"])}
+
+    def elem(eid, x):
+        adds = []
+        if x["k"] == "mcall" and x.get("cn") in TYPE_READS and x.get("obj"):
+            r = emit.root_ref(x["obj"])
+            rx = emit.e(r) if r is not None else None
+            if rx is not None and rx.get("did") in ops:
+                adds.append(("typed", rx["did"]))
+        if x["k"] == "call" and x.get("callee") and x.get("args"):
+            for j in summ.get((x["callee"], len(x["args"])), ()):
+                r = emit.root_ref(x["args"][j])
+                rx = emit.e(r) if r is not None else None
+                if rx is not None and rx.get("did") in ops:
+                    adds.append(("typed", rx["did"]))
+        return (tuple(adds), ()) if adds else None
+    m = Must(emit, elem, None)
+    n = 0
+    for i, x in sorted(emit.calls(lambda x: x["k"] == "mcall" and x.get("cn") == "add_reg" and x.get("args"))):
+        a = emit.e(emit.strip(x["args"][0]))
+        if a is None or a["k"] != "ref" or a.get("did") not in ops:
+            continue
+        n += 1
+        regs = [r[5:] for r in A["regions"].group_of_line(x["l"]) if r.startswith("case:")]
+        chk.ob(R, "a64::_emit|%s|%s@%d" % ("+".join(regs) or "tail", ops[a["did"]], n), ("typed", a["did"]) in (m.before(i) or frozenset()), loc=emit.loc(i),
+               detail="`%s` packs the id of %s although no path to it ever read that operand's register type: a register of another width or "
+                      "class is encoded as if it were the expected one" % (" ".join(emit.text(i).split())[:40], ops[a["did"]]),
+               key="regtype|%s|%s" % ("+".join(regs) or "tail", ops[a["did"]]))
+    chk.floor(R + ":packs", n, 100)
+    chk.floor(R + ":type-reading-helpers", sum(1 for v in summ.values() if v), 8)
